@@ -313,7 +313,9 @@ class extract_visitor(NodeVisitor):
 
     def visit_Return(self, node):
         # type: (ast.Return) -> None
-        self.flow.scope.returns.append(node.value)  # type: ignore[attr-defined]
+        returns = getattr(self.flow.scope, 'returns', None)
+        if returns is not None:  # 'return' outside a function: nothing to record
+            returns.append(node.value)
         self.generic_visit(node)
 
     def visit_ListComp(self, node):
